@@ -236,3 +236,60 @@ Definition c08_explain (c : c08_case) :=
   (outcome_result (model_remap c), outcome_calls (model_remap c), model_research c,
    outcome_result (spec_remap (visit_of (c_visit c)) (c_in c)),
    (ok_rebuild c, ok_untouched c, ok_paths c)).
+
+(* ---- very deep inputs ----------------------------------------------------------------
+   A chain of tens of thousands of nested list/tuple/dict levels cannot be handed to
+   Coq as a literal (nor serialised recursively in Python).  The input is described by
+   a generator term - [chain_kinds pat reps], one child per level, a leaf at the bottom
+   - and the observation is compact: the kinds met when walking down the output (as
+   pattern * repetitions ++ remainder: a lossless encoding), the leaf found, counts.
+   What the recursive rebuild gives on such a chain is known in closed form for every
+   depth (Proofs/C08_Deep.v: [deep_rebuild], [deep_machine]); the checker evaluates that
+   closed form.  remap is iterative: no exception (RecursionError in particular) is an
+   acceptable outcome at any depth. *)
+Inductive dvisit := DVDefault | DVKeep | DVLeaf (m : nat).   (* default / answers True / rewrites the leaf *)
+
+Definition chain_kinds (pat : list kind) (reps : nat) : list kind := concat (repeat pat reps).
+Definition dkinds := (list kind * nat * list kind)%type.      (* pattern, repetitions, remainder *)
+Definition expand (d : dkinds) : list kind := let '(p, r, rem) := d in chain_kinds p r ++ rem.
+
+Record deep_case := mkDeep {
+  d_pat : list kind; d_reps : nat; d_leaf : nat; d_visit : dvisit;
+  d_out : res (dkinds * nat);          (* remap: kinds walking down the result, leaf at the bottom / exception *)
+  d_calls : nat; d_maxpath : nat;      (* visit calls received, longest path received *)
+  d_in_after : dkinds * nat;           (* the input walked again afterwards *)
+  d_shared : nat;                      (* levels at which the output container IS the input container *)
+  d_research : res (nat * nat * bool)  (* research(leaf query): entries, len of the reported path, get_path found the leaf *)
+}.
+
+Definition kinds_eqb : list kind -> list kind -> bool := list_eqb kind_eqb.
+
+Definition deep_ok (d : deep_case) : bool :=
+  let ks := chain_kinds (d_pat d) (d_reps d) in
+  let n := length ks in
+  match d_out d with
+  | Ok (ko, leaf) =>
+      kinds_eqb (expand ko) ks
+      && Nat.eqb leaf (match d_visit d with DVLeaf m => m | _ => d_leaf d end)
+  | Raise _ => false
+  end
+  && Nat.eqb (d_calls d) (match d_visit d with DVDefault => 0 | _ => n end)
+  && Nat.eqb (d_maxpath d) (match d_visit d with DVDefault => 0 | _ => pred n end)
+  && kinds_eqb (expand (fst (d_in_after d))) ks && Nat.eqb (snd (d_in_after d)) (d_leaf d)
+  && Nat.eqb (d_shared d) 0
+  && match d_research d with
+     | Ok (entries, plen, found) => Nat.eqb entries 1 && Nat.eqb plen n && found
+     | Raise _ => false
+     end.
+
+Inductive c08_any := Graph (c : c08_case) | Deep (d : deep_case).
+Definition c08_any_verdict (x : c08_any) : verdict :=
+  match x with
+  | Graph c => c08_verdict c
+  | Deep d => (deep_ok d, deep_ok d, false)
+  end.
+Definition c08_any_explain (x : c08_any) :=
+  match x with
+  | Graph c => inl (c08_explain c)
+  | Deep d => inr (length (chain_kinds (d_pat d) (d_reps d)), deep_ok d)
+  end.
